@@ -18,3 +18,49 @@ Theorem C06_wrapper_constants_match_docs :
   gen_ops = map (fun d => (doc_table (fst d), meta_code (snd d))) doc_ops.
 Proof. exact wrapper_constants_match_docs. Qed.
 Print Assumptions C06_wrapper_constants_match_docs.
+
+From Centro Require Import Model.Lut Proofs.LutPlain Proofs.LutDense Proofs.LutLoop.
+
+(* Full, all shapes >= 3x3: the scatter kernel table_lookup_index (interior loop, four corner
+   blocks, two edge loops) = the gather form of the neighbourhood index with border value 0 *)
+Theorem C06_dense_index_correct : forall H W X p q,
+  3 <= H -> 3 <= W -> 0 <= p < H -> 0 <= q < W ->
+  tli H W X p q = enc (gbits false H W X p q).
+Proof. exact tli_gather. Qed.
+Print Assumptions C06_dense_index_correct.
+
+(* Full, every shape (in particular 1x1, 1xN, Nx1, 2x2): the slicing path = the same index *)
+Theorem C06_small_path_correct : forall H W X p q,
+  0 <= p < H -> 0 <= q < W -> small_index H W X p q = enc (gbits false H W X p q).
+Proof. exact small_index_gather. Qed.
+Print Assumptions C06_small_path_correct.
+
+(* Full: the four OR masks turn the border-0 index into the border-1 index at every pixel,
+   including corners and one-row / one-column images where several masks hit the same pixel *)
+Theorem C06_border_masks_correct : forall H W X p q,
+  0 <= p < H -> 0 <= q < W ->
+  border_or H W (fun p q => enc (gbits false H W X p q)) p q = enc (gbits true H W X p q).
+Proof. exact border_or_gather. Qed.
+Print Assumptions C06_border_masks_correct.
+
+(* Full: one pass of the plain loop body = lut_step, every image, table, border value *)
+Theorem C06_plain_step_correct : forall T b X, plain_step T b X = lut_step T b X.
+Proof. exact plain_step_correct. Qed.
+Print Assumptions C06_plain_step_correct.
+
+(* Full: the counted loop with its early exit = k applications of the rule *)
+Theorem C06_plain_iterations_correct : forall k T b X, plain_k k T b X = lut_iter k T b X.
+Proof. exact plain_k_correct. Qed.
+Print Assumptions C06_plain_iterations_correct.
+
+(* Full: iterations=None on the plain path = the partial fixed-point search lut_fix, which returns
+   the first image of the orbit that the rule maps to itself *)
+Theorem C06_plain_until_unchanged_correct : forall fuel T b X, plain_none fuel T b X = lut_fix fuel T b X.
+Proof. exact plain_none_correct. Qed.
+Print Assumptions C06_plain_until_unchanged_correct.
+
+Theorem C06_lut_fix_spec : forall fuel T b X Y, lut_fix fuel T b X = Some Y ->
+  exists n, (n < fuel)%nat /\ Y = lut_iter n T b X /\ lut_step T b Y = Y /\
+            forall m, (m < n)%nat -> lut_step T b (lut_iter m T b X) <> lut_iter m T b X.
+Proof. exact lut_fix_spec. Qed.
+Print Assumptions C06_lut_fix_spec.
